@@ -181,3 +181,11 @@ def u_gd1_ext(ctx):
 def u_interp_xoprob(ctx):
     from contracts import C02 as _c02          # imported here: contracts.C02 itself imports this module
     return _c02.u_interp(ctx)
+
+
+@unit(P, "lemma[cM2d: centiMorgans to Morgans is division by 100]", "L", targets=["pybrops/popgen/gmap/util.py:cM2d"])
+def u_cm2d(ctx):
+    from pybrops.popgen.gmap.util import cM2d
+    x = real("cM")
+    ctx.prove("cM2d(x) == x / 100 (the float constant 0.01 is read as 1/100)", [], sym._t(cM2d(x)) * 100 == x.t)
+    ctx.prove("canary: cM2d(x) == x", [x.t != 0], sym._t(cM2d(x)) == x.t, expect="fail", timeout_ms=2000)
